@@ -416,6 +416,8 @@ def subst_val(v, mapping):
     if isinstance(v, CallV):
         return CallV(v.kind, subst_val(v.recv, mapping), [subst_val(a, mapping) for a in v.args], v.node, v.loops,
                      {k: lsubst(x, mapping) for k, x in v.binding.items()}, v.seq, v.atoms)
+    if isinstance(v, Strided):
+        return v.subst(mapping)
     if isinstance(v, Flat):
         b = subst_val(v.base, mapping)
         return Flat(b, v.keep, v.order) if b is not v.base else v
@@ -851,6 +853,30 @@ class Tile(Nd):
         return "Tile(%r x %r)" % (self.base, self.reps)
 
 
+class Strided(Nd):
+    """``A[start::step]`` of a 1-d term (step >= 1)."""
+
+    def __init__(self, base, start, step):
+        self.base, self.start, self.step = base, as_lin(start), as_lin(step)
+        self.shape = (sym_div("ceil", base.shape[0] - self.start, self.step),)
+
+    def cell(self, coords, q, **kw):
+        if not q.concrete:
+            return self.base.cell([self.start + mul_lin(q.ev(coords[0]), self.step)], q, **kw)
+        st_, sp_, n_ = q.env.eval(self.start), q.env.eval(self.step), q.env.eval(self.base.shape[0])
+        c = q.env.eval(coords[0])
+        if sp_ <= 0 or c < 0 or st_ + c * sp_ >= n_:
+            return OOB
+        return self.base.cell([Lin.c(st_ + c * sp_)], q, **kw)
+
+    def subst(self, mapping):
+        b = self.base.subst(mapping) if hasattr(self.base, "subst") else self.base
+        return Strided(b, lsubst(self.start, mapping), lsubst(self.step, mapping))
+
+    def __repr__(self):
+        return "Strided(%r[%r::%r])" % (self.base, self.start, self.step)
+
+
 class RepEach(Nd):
     """``np.repeat(A, r)`` of a 1-d term: every element repeated r times in place."""
 
@@ -1208,6 +1234,20 @@ class AInterp(Interp):
             return dim + x
         return None
 
+    def norm_bound(self, x, dim, st):
+        """Slice bound: negative values count from the end and are clamped at 0 (numpy)."""
+        y = self.norm_index(x, dim, st)
+        if y is None or y is x or y == x:
+            return y
+        # x was negative: y = dim + x may still be below 0, where numpy clamps
+        if y.is_const():
+            return y if y.const >= 0 else ZERO
+        if entails(st.facts, y):
+            return ZERO
+        if entails(st.facts, -y):
+            return y
+        return None
+
     def parse_subscript(self, base, sl, st, frame, allow_raw=False):
         """Per base dimension: ('pt', lin) | ('sl', lo, hi) | ('ga', Vec/Rng) ; or None."""
         elts = list(sl.elts) if isinstance(sl, ast.Tuple) else [sl]
@@ -1226,14 +1266,14 @@ class AInterp(Interp):
                     lo0 = as_lin_val(self.ev(el.lower, st, frame))
                     if lo0 is None:
                         return None
-                    lo = self.norm_index(lo0, dim, st)
+                    lo = self.norm_bound(lo0, dim, st)
                     if lo is None:
                         lo, raw_lo = lo0, True
                 if el.upper is not None:
                     hi0 = as_lin_val(self.ev(el.upper, st, frame))
                     if hi0 is None:
                         return None
-                    hi = self.norm_index(hi0, dim, st)
+                    hi = self.norm_bound(hi0, dim, st)
                     if hi is None:
                         hi, raw_hi = hi0, True
                 if raw_lo or raw_hi:
@@ -1264,6 +1304,11 @@ class AInterp(Interp):
 
     def ev_Subscript(self, e, st, frame):
         base = self.ev(e.value, st, frame)
+        if isinstance(base, Nd) and base.ndim == 1 and isinstance(e.slice, ast.Slice) and e.slice.step is not None and e.slice.upper is None:
+            lo = as_lin_val(self.ev(e.slice.lower, st, frame)) if e.slice.lower is not None else ZERO
+            stp = as_lin_val(self.ev(e.slice.step, st, frame))
+            if lo is not None and stp is not None and entails(st.facts, -lo) and entails(st.facts, 1 - stp):
+                return Strided(base, lo, stp)
         if isinstance(base, Nd) and base.ndim == 1 and isinstance(e.slice, (ast.List, ast.Tuple)) and e.slice.elts:
             ps = [as_lin_val(self.ev(x, st, frame)) for x in e.slice.elts]
             if all(p_ is not None for p_ in ps):
@@ -1432,6 +1477,10 @@ class AInterp(Interp):
         return results + [(after, ("fall",))]
 
     def _exec_stmt(self, node, st, frame):
+        if isinstance(node, ast.With) and len(node.items) == 1 and node.items[0].optional_vars is None:
+            r = self._with_contextmanager(node, st, frame)
+            if r is not None:
+                return r
         if isinstance(node, ast.While):
             f_ = self._counting_while(node, st, frame)
             if f_ is not None:
@@ -1441,6 +1490,50 @@ class AInterp(Interp):
                         s_.env[f_.target.id] = Opq("loop-var-after:" + f_.target.id)
                 return res
         return super()._exec_stmt(node, st, frame)
+
+    def _with_contextmanager(self, node, st, frame):
+        """``with self.cm():`` for a repo-local ``@contextmanager`` method of the shape ``pre...; try: yield; finally: post...``:
+        the pre-statements run before the body and the finally-statements after it, on every way out of the body."""
+        ce = node.items[0].context_expr
+        if not (isinstance(ce, ast.Call) and isinstance(ce.func, ast.Attribute) and not ce.args and not ce.keywords):
+            return None
+        recv = self.ev(ce.func.value, st, frame)
+        if not isinstance(recv, SelfV) or recv.cls is None or ce.func.attr in self.no_inline:
+            return None
+        hit = self.repo.lookup_method(recv.cls, ce.func.attr)
+        if not hit:
+            return None
+        k, fn = hit
+        if not any((dotted(d) or "").split(".")[-1] == "contextmanager" for d in fn.decorator_list):
+            return None
+        body = [b for b in fn.body if not (isinstance(b, ast.Expr) and isinstance(b.value, ast.Constant))]
+        if not body or not isinstance(body[-1], ast.Try):
+            return None
+        tr = body[-1]
+        if tr.handlers or tr.orelse or not (len(tr.body) == 1 and isinstance(tr.body[0], ast.Expr) and isinstance(tr.body[0].value, ast.Yield)
+                                            and tr.body[0].value.value is None):
+            return None
+        pre, post = body[:-1], tr.finalbody
+        sub = Frame(k.module, fn, recv.cls, k, frame.depth + 1)
+        selfname = fn.args.args[0].arg
+        cm_st = st.copy()
+        cm_st.env = {selfname: recv}
+        outs = self.block(pre, cm_st, sub)
+        if len(outs) != 1 or outs[0][1][0] != "fall":
+            return None
+        cm_env = dict(outs[0][0].env)
+        st.facts, st.heap = outs[0][0].facts, outs[0][0].heap
+        results = []
+        for s_, o_ in self.block(node.body, st, frame):
+            fin = s_.copy()
+            saved_env = s_.env
+            fin.env = dict(cm_env)
+            fouts = self.block(post, fin, sub)
+            for f_, fo in fouts:
+                s2 = f_
+                s2.env = dict(saved_env)
+                results.append((s2, o_ if fo[0] == "fall" else fo))
+        return results
 
     def _counting_while(self, node, st, frame):
         """``while i < hi: body; i += 1`` with ``i`` an integer set before the loop -> the equivalent ``for i in range(i, hi)``."""
@@ -1739,6 +1832,8 @@ class AInterp(Interp):
                 return recv
             if meth == "to_numpy":
                 return recv
+            if meth in ("mean",) and not args and not kwargs and recv.ndim == 1:
+                return Opq("scalar-mean", [recv])
             if meth == "ravel" and not args:
                 if recv.ndim == 1:
                     return recv
